@@ -8,7 +8,7 @@ from ..check import Stream, run_check
 from ..core import e_list, e_pstr, s_bool, s_exc, s_pstr, s_val
 from .c10 import e_aval, mk_aval, s_state
 
-PATHS = ['json', 'pickle', 'sqlite', 'mongo', 'redis_json', 'redis_pickle']
+PATHS = ['json', 'pickle', 'sqlite', 'mongo', 'redis_json', 'redis_pickle', 'json_stored']
 
 
 def mk_policy_shared(p):
@@ -34,9 +34,37 @@ def mk_policy_shared(p):
                context={k: rule(r) for k, r in p['context']}, description=specs.py(p.get('description')))
 
 
-def through(path, pol):
+def stored_state(obj, spec):
+    """a rule as a store holds it: an operator rule's state is the argument it was created with (a tuple stays a tuple:
+    documents written by any version carry {"py/tuple": [...]}); reading such a document does not run __init__"""
+    k = spec[0]
+    if k in specs.OPERATOR:
+        obj.__dict__['val'] = specs.py(spec[1])
+    elif k in ('And', 'Or'):
+        for o, sp in zip(obj.rules, spec[1]):
+            stored_state(o, sp)
+    elif k == 'Not':
+        stored_state(obj.rule, spec[1])
+
+
+def stored_policy_state(pol, p):
+    for f in ('subjects', 'resources', 'actions'):
+        for e, sp in zip(getattr(pol, f), p[f]):
+            if sp[0] == 'r':
+                stored_state(e, sp[1])
+            elif sp[0] == 'd':
+                for (k, rs) in sp[1]:
+                    stored_state(e[k], rs)
+    for k, rs in p['context']:
+        stored_state(pol.context[k], rs)
+
+
+def through(path, pol, spec=None):
     from vakt.policy import Policy
     if path == 'json':
+        return Policy.from_json(pol.to_json())
+    if path == 'json_stored':
+        stored_policy_state(pol, spec)
         return Policy.from_json(pol.to_json())
     if path == 'pickle':
         return pickle.loads(pickle.dumps(pol))
@@ -95,7 +123,8 @@ class RoundTripStream(Stream):
     shard = 120
     rule = ('policies with nested compositions, tuples, sets of hashables, regex rules, Unicode text and the same '
             'rule instance used in several places, written and read back through JSON text, pickle, SQL rows '
-            '(SQLite), Mongo documents and Redis values (client doubles, both serializers); the reloaded policy is '
+            '(SQLite), Mongo documents and Redis values (client doubles, both serializers), and JSON text holding the rules '
+            'with the state of their arguments as given (what stored documents carry); the reloaded policy is '
             'probed with 3-5 inquiries derived from it (one matching, one-point mutations) under all four '
             'checkers and compared with the model\'s verdicts for the original policy, together with uid, effect, '
             'description, type and context keys. non-trivial = policy with a composition, a shared instance or a '
@@ -179,7 +208,7 @@ class RoundTripStream(Stream):
     def impl(self, c):
         pol = self._orig(c)
         try:
-            back = through(c['path'], pol)
+            back = through(c['path'], pol, c['policy'])
         except Exception as e:  # noqa
             return 'LOAD-FAILED %s: %s' % (type(e).__name__, str(e)[:120])
         if back is None:
